@@ -16,3 +16,27 @@ io/Registry.vos io/Registry.vok io/Registry.required_vos: io/Registry.v base/Jso
 io/RegistryFacts.vo io/RegistryFacts.glob io/RegistryFacts.v.beautified io/RegistryFacts.required_vo: io/RegistryFacts.v base/PyStr.vo base/PyStrFacts.vo base/Json.vo io/Registry.vo
 io/RegistryFacts.vio: io/RegistryFacts.v base/PyStr.vio base/PyStrFacts.vio base/Json.vio io/Registry.vio
 io/RegistryFacts.vos io/RegistryFacts.vok io/RegistryFacts.required_vos: io/RegistryFacts.v base/PyStr.vos base/PyStrFacts.vos base/Json.vos io/Registry.vos
+sys/Convert.vo sys/Convert.glob sys/Convert.v.beautified sys/Convert.required_vo: sys/Convert.v sys/Fs.vo
+sys/Convert.vio: sys/Convert.v sys/Fs.vio
+sys/Convert.vos sys/Convert.vok sys/Convert.required_vos: sys/Convert.v sys/Fs.vos
+sys/ConvertFacts.vo sys/ConvertFacts.glob sys/ConvertFacts.v.beautified sys/ConvertFacts.required_vo: sys/ConvertFacts.v base/PyStr.vo base/PyStrFacts.vo base/Json.vo sys/Fs.vo sys/FsFacts.vo sys/Convert.vo
+sys/ConvertFacts.vio: sys/ConvertFacts.v base/PyStr.vio base/PyStrFacts.vio base/Json.vio sys/Fs.vio sys/FsFacts.vio sys/Convert.vio
+sys/ConvertFacts.vos sys/ConvertFacts.vok sys/ConvertFacts.required_vos: sys/ConvertFacts.v base/PyStr.vos base/PyStrFacts.vos base/Json.vos sys/Fs.vos sys/FsFacts.vos sys/Convert.vos
+sys/Dump.vo sys/Dump.glob sys/Dump.v.beautified sys/Dump.required_vo: sys/Dump.v sys/Fs.vo
+sys/Dump.vio: sys/Dump.v sys/Fs.vio
+sys/Dump.vos sys/Dump.vok sys/Dump.required_vos: sys/Dump.v sys/Fs.vos
+sys/DumpFacts.vo sys/DumpFacts.glob sys/DumpFacts.v.beautified sys/DumpFacts.required_vo: sys/DumpFacts.v base/PyStr.vo base/PyStrFacts.vo base/Json.vo sys/Fs.vo sys/FsFacts.vo sys/Dump.vo
+sys/DumpFacts.vio: sys/DumpFacts.v base/PyStr.vio base/PyStrFacts.vio base/Json.vio sys/Fs.vio sys/FsFacts.vio sys/Dump.vio
+sys/DumpFacts.vos sys/DumpFacts.vok sys/DumpFacts.required_vos: sys/DumpFacts.v base/PyStr.vos base/PyStrFacts.vos base/Json.vos sys/Fs.vos sys/FsFacts.vos sys/Dump.vos
+sys/Fs.vo sys/Fs.glob sys/Fs.v.beautified sys/Fs.required_vo: sys/Fs.v base/Json.vo base/Corr.vo
+sys/Fs.vio: sys/Fs.v base/Json.vio base/Corr.vio
+sys/Fs.vos sys/Fs.vok sys/Fs.required_vos: sys/Fs.v base/Json.vos base/Corr.vos
+sys/FsFacts.vo sys/FsFacts.glob sys/FsFacts.v.beautified sys/FsFacts.required_vo: sys/FsFacts.v base/PyStr.vo base/PyStrFacts.vo base/Json.vo sys/Fs.vo
+sys/FsFacts.vio: sys/FsFacts.v base/PyStr.vio base/PyStrFacts.vio base/Json.vio sys/Fs.vio
+sys/FsFacts.vos sys/FsFacts.vok sys/FsFacts.required_vos: sys/FsFacts.v base/PyStr.vos base/PyStrFacts.vos base/Json.vos sys/Fs.vos
+sys/Update.vo sys/Update.glob sys/Update.v.beautified sys/Update.required_vo: sys/Update.v sys/Fs.vo
+sys/Update.vio: sys/Update.v sys/Fs.vio
+sys/Update.vos sys/Update.vok sys/Update.required_vos: sys/Update.v sys/Fs.vos
+sys/UpdateFacts.vo sys/UpdateFacts.glob sys/UpdateFacts.v.beautified sys/UpdateFacts.required_vo: sys/UpdateFacts.v base/PyStr.vo base/PyStrFacts.vo base/Json.vo sys/Fs.vo sys/FsFacts.vo sys/Update.vo
+sys/UpdateFacts.vio: sys/UpdateFacts.v base/PyStr.vio base/PyStrFacts.vio base/Json.vio sys/Fs.vio sys/FsFacts.vio sys/Update.vio
+sys/UpdateFacts.vos sys/UpdateFacts.vok sys/UpdateFacts.required_vos: sys/UpdateFacts.v base/PyStr.vos base/PyStrFacts.vos base/Json.vos sys/Fs.vos sys/FsFacts.vos sys/Update.vos
